@@ -67,7 +67,16 @@ structure WDoc where
   procs : List WProc := []
   deriving DecidableEq, Repr, Inhabited
 
+/-- what the writer of the *current* source does for the three optional features; computed from the generated tables
+    (Gen/XmlTables.lean) by `Model/XmlWriteCfg.lean`, so that the model follows a repaired writer -/
+structure WCfg where
+  prob : Bool        -- a "probability" label is written (XMLWriter::labels)
+  ctrl : Bool        -- the "controllable" attribute is written (XMLWriter::transition)
+  bps : Bool         -- branchpoint elements are written and referenced (XMLWriter::taTempl / source / target)
+  deriving DecidableEq, Repr, Inhabited
+
 def idOf (nr : Nat) : String := "id" ++ toString nr
+def bpIdOf (nr : Nat) : String := "bp" ++ toString nr
 
 /-! ### The writer -/
 
@@ -88,34 +97,50 @@ def wLocKids (nl : WLoc × Nat) : List Xml :=
 
 def selText (s : WSel) (withType : Bool) : String := s.id ++ " : " ++ (if withType then s.ty else "")
 
-/-- `XMLWriter::labels`: only `select[0]`, its type only when it carries a typedef label; no probability -/
-def wEdgeLabels (e : WEdge) : List Xml :=
+/-- `XMLWriter::labels`: only `select[0]`, its type only when it carries a typedef label; a probability only if the
+    source has that `label("probability", ..)` call -/
+def wEdgeLabels (c : WCfg) (e : WEdge) : List Xml :=
   (match e.select with
    | [] => []
    | s :: _ => [Xml.elem "label" [("kind", "select")] [.text (.str (selText s s.named))]]) ++
-  wOptLabel "guard" e.guard ++ wOptLabel "synchronisation" e.sync ++ wOptLabel "assignment" e.assign
+  wOptLabel "guard" e.guard ++ wOptLabel "synchronisation" e.sync ++ wOptLabel "assignment" e.assign ++
+  (if c.prob then wOptLabel "probability" e.prob else [])
 
-def wEdgeKids (e : WEdge) (s d : Nat) : List Xml :=
-  [Xml.elem "source" [("ref", idOf s)] [], Xml.elem "target" [("ref", idOf d)] []] ++ wEdgeLabels e
+/-- the id written for an endpoint; `none` = the null `location_t*` of a branchpoint endpoint is dereferenced -/
+def wEnd (c : WCfg) : WEnd → Option String
+  | .loc n => some (idOf n)
+  | .bp n => if c.bps then some (bpIdOf n) else none
 
-/-- `XMLWriter::transition`; `none` = the null `location_t*` of a branchpoint endpoint is dereferenced -/
-def wEdge (e : WEdge) : Option Xml :=
-  match e.src, e.dst with
-  | .loc s, .loc d => some (.elem "transition" [] (wEdgeKids e s d))
-  | _, _ => none
+def wEdgeAttrs (c : WCfg) (e : WEdge) : List (String × String) :=
+  if c.ctrl && !e.ctrl then [("controllable", "false")] else []
+
+def wEdgeKids (c : WCfg) (e : WEdge) (s d : String) : List Xml :=
+  [Xml.elem "source" [("ref", s)] [], Xml.elem "target" [("ref", d)] []] ++ wEdgeLabels c e
+
+/-- `XMLWriter::transition` -/
+def wEdge (c : WCfg) (e : WEdge) : Option Xml :=
+  match wEnd c e.src with
+  | none => none
+  | some s =>
+    match wEnd c e.dst with
+    | none => none
+    | some d => some (.elem "transition" (wEdgeAttrs c e) (wEdgeKids c e s d))
 
 def allSome {α} : List (Option α) → Option (List α)
   | [] => some []
   | none :: _ => none
   | some a :: r => (allSome r).map (a :: ·)
 
-def wTempl (t : WTempl) : Option Xml :=
-  match t.init, allSome (t.edges.map wEdge) with
+def wBps (c : WCfg) (t : WTempl) : List Xml :=
+  if c.bps then t.bps.zipIdx.map (fun b => Xml.elem "branchpoint" [("id", bpIdOf b.2)] []) else []
+
+def wTempl (c : WCfg) (t : WTempl) : Option Xml :=
+  match t.init, allSome (t.edges.map (wEdge c)) with
   | some i, some es =>
     some (.elem "template" []
       ([Xml.elem "name" [] [.text (.str t.name)], Xml.elem "parameter" [] [], Xml.elem "declaration" [] []] ++
        (t.locs.zipIdx.map (fun nl => Xml.elem "location" (wLocAttrs nl) (wLocKids nl)) ++
-        ([Xml.elem "init" [("ref", idOf i)] []] ++ es))))
+        (wBps c t ++ ([Xml.elem "init" [("ref", idOf i)] []] ++ es)))))
   | _, _ => none
 
 /-- `XMLWriter::system_instantiation` prints `p.arguments_str()` for every process that is not a template itself;
@@ -124,9 +149,9 @@ def wTempl (t : WTempl) : Option Xml :=
 def procCrash (p : WProc) : Bool := !p.isTempl && p.bound.any (!·)
 
 /-- `XMLWriter::project`; `none` = the writer crashes -/
-def writeXml (d : WDoc) : Option Xml :=
+def writeXml (c : WCfg) (d : WDoc) : Option Xml :=
   if d.procs.any procCrash then none
-  else (allSome (d.templs.map wTempl)).map fun ts =>
+  else (allSome (d.templs.map (wTempl c))).map fun ts =>
     .elem "nta" [] ([Xml.elem "declaration" [] []] ++ (ts ++ [Xml.elem "system" [] []]))
 
 /-! ### An independent reader of the written tree -/
@@ -203,10 +228,14 @@ def lblF (x : Xml) : Option (String × String) :=
   | .elem t la lk => if t = "label" then some ((la.lookup "kind").getD "", contentOf lk) else none
   | .text _ => none
 
+/-- the `controllable` attribute of a transition, absent = true -/
+def ctrlOfAttrs (a : List (String × String)) : Bool :=
+  match a.lookup "controllable" with
+  | none => true
+  | some v => v = "true"
+
 def gEdge (a : List (String × String)) (k : List Xml) : GEdge :=
-  { src := refOf "source" k, tgt := refOf "target" k,
-    ctrl := match a.lookup "controllable" with | none => true | some v => v = "true",
-    labels := k.filterMap lblF }
+  { src := refOf "source" k, tgt := refOf "target" k, ctrl := ctrlOfAttrs a, labels := k.filterMap lblF }
 
 def locF (x : Xml) : Option GLoc :=
   match x with
@@ -255,9 +284,11 @@ def flagOf (l : WLoc) : Flag :=
 def glocOf (nl : WLoc × Nat) : GLoc :=
   { id := some (idOf nl.2), name := some nl.1.name, inv := nontrivial nl.1.inv, rate := nontrivial nl.1.rate, flag := flagOf nl.1 }
 
-def endId : WEnd → Option String
+/-- the id of an endpoint: for a branchpoint only if the writer writes branchpoint elements at all (edges through
+    branchpoints are outside the property's statement except for "writing never crashes") -/
+def endId (c : WCfg) : WEnd → Option String
   | .loc n => some (idOf n)
-  | .bp _ => none                 -- the written format of this library has no element for a branchpoint
+  | .bp n => if c.bps then some (bpIdOf n) else none
 
 def optLabel (kind : String) (t : Option LTxt) : List (String × String) :=
   match nontrivial t with
@@ -269,15 +300,15 @@ def selectsText : List WSel → String
   | [s] => selText s true
   | s :: r => selText s true ++ ", " ++ selectsText r
 
-def gedgeOf (e : WEdge) : GEdge :=
-  { src := endId e.src, tgt := endId e.dst, ctrl := e.ctrl,
+def gedgeOf (c : WCfg) (e : WEdge) : GEdge :=
+  { src := endId c e.src, tgt := endId c e.dst, ctrl := e.ctrl,
     labels := (if e.select.isEmpty then [] else [("select", selectsText e.select)]) ++ optLabel "guard" e.guard ++
               optLabel "synchronisation" e.sync ++ optLabel "assignment" e.assign ++ optLabel "probability" e.prob }
 
-def gtemplOf (t : WTempl) : GTempl :=
-  { name := some t.name, locs := t.locs.zipIdx.map glocOf, inits := [t.init.map idOf], edges := t.edges.map gedgeOf }
+def gtemplOf (c : WCfg) (t : WTempl) : GTempl :=
+  { name := some t.name, locs := t.locs.zipIdx.map glocOf, inits := [t.init.map idOf], edges := t.edges.map (gedgeOf c) }
 
-def graphOf (d : WDoc) : Graph := d.templs.map gtemplOf
+def graphOf (c : WCfg) (d : WDoc) : Graph := d.templs.map (gtemplOf c)
 
 /-! ### Exception shapes (computed) -/
 
@@ -297,19 +328,19 @@ def selShapes (select : List WSel) : List Shape :=
   | s :: _ => if s.named then [] else [Shape.selectTypeDropped]
   | [] => []
 
-def edgeShapes (e : WEdge) : List Shape :=
-  (if (nontrivial e.prob).isSome then [Shape.probabilityDropped] else []) ++
+def edgeShapes (c : WCfg) (e : WEdge) : List Shape :=
+  (if !c.prob && (nontrivial e.prob).isSome then [Shape.probabilityDropped] else []) ++
   (if e.select.length ≥ 2 then [Shape.selectBindingsDropped] else []) ++
   selShapes e.select ++
-  (if e.ctrl then [] else [Shape.controllableDropped]) ++
-  (match e.src, e.dst with | .loc _, .loc _ => [] | _, _ => [Shape.branchpointEndpoint])
+  (if c.ctrl || e.ctrl then [] else [Shape.controllableDropped]) ++
+  (if (wEnd c e.src).isSome && (wEnd c e.dst).isSome then [] else [Shape.branchpointEndpoint])
 
-def templShapes (t : WTempl) : List Shape :=
-  t.edges.flatMap edgeShapes ++
+def templShapes (c : WCfg) (t : WTempl) : List Shape :=
+  t.edges.flatMap (edgeShapes c) ++
   (if t.locs.any (fun l => l.urgent && l.committed) then [Shape.urgentAndCommitted] else []) ++
   (if t.init.isNone then [Shape.noInit] else [])
 
-def docShapes (d : WDoc) : List Shape :=
-  d.templs.flatMap templShapes ++ (if d.procs.any procCrash then [Shape.unboundProcess] else [])
+def docShapes (c : WCfg) (d : WDoc) : List Shape :=
+  d.templs.flatMap (templShapes c) ++ (if d.procs.any procCrash then [Shape.unboundProcess] else [])
 
 end UtapModel.AM
